@@ -231,6 +231,10 @@ func Run(j *job.Job, s *job.Sink) {
 					// nothing includes any more, must not contribute to any list from then on
 					old := strings.Replace(sub, "  identity SUBMID", "  revision 2019-01-01;\n  identity SUBOLD { base MID; }\n  identity SUBOLDER { base SUBOLD; }\n  identity SUBMID", 1)
 					newer := strings.Replace(sub, "  identity SUBMID", "  revision 2020-01-01;\n  identity SUBNEW { base MID; }\n  identity SUBMID", 1)
+					// (each revision also augments the module's container and deviates its leaf:
+					// only the included revision's augment and deviation count in a run)
+					old = strings.Replace(old, "  leaf subref", "  augment \"/i0:idbox\" { leaf fromold { type string; } }\n  deviation \"/i0:idref\" { deviate add { units \"u-old\"; } }\n  leaf subref", 1)
+					newer = strings.Replace(newer, "  leaf subref", "  augment \"/i0:idbox\" { leaf fromnew { type string; } }\n  deviation \"/i0:idref\" { deviate add { units \"u-new\"; } }\n  leaf subref", 1)
 					sub = old
 					lateSub = &op{"load", "zzid0s@2020-01-01.yang", newer}
 					s.Count("histories_with_a_late_submodule_revision", 1)
@@ -249,7 +253,7 @@ func Run(j *job.Job, s *job.Sink) {
 					if withSub {
 						b.WriteString("  include zzid0s;\n")
 					}
-					b.WriteString("  identity TOP;\n  identity MID { base TOP; }\n  identity LOW { base MID; }\n  leaf idref { type identityref { base TOP; } }\n")
+					b.WriteString("  identity TOP;\n  identity MID { base TOP; }\n  identity LOW { base MID; }\n  leaf idref { type identityref { base TOP; } }\n  container idbox { }\n")
 				} else {
 					for q := 1 + r.Intn(2); q > 0; q-- {
 						src := r.Intn(k)
